@@ -48,6 +48,20 @@ def specs(ctx):
                     es = entry_sets if (oe is None or oe == ()) else entry_sets[:1] + entry_sets[1:40:7] + entry_sets[-4:]
                     for e in es:
                         out.append((ht, ct, flags, comp, oe, e, None, 0))
+    # running sums that wrap or just reach a limit only together with the entries in front: a small prefix P followed
+    # by a stored size of 2^64-P, 2^63-P, ..., and sizes placed so that header length + sum lands on 2^63 -1/+0/+1
+    M64, M63 = 1 << 64, 1 << 63
+    for (ht, ct) in digs:
+        for flags in (0, 4):
+            for prefix in (((1, 1),), ((128, 128),), ((1, 1), (1, 1)), ((0, 0), (16, 16)), ((M63 - 1, 1),), ((1 << 62, 1), (1 << 62, 1))):
+                P = sum(cl for cl, _ in prefix)
+                hl = len(build((ht, ct, flags, 0, None, prefix + ((1 << 62, 1),), None, 0)))
+                lasts = {M64 - P, M64 - P - 1, M64 - P + 1, M64 - 1, M63 - P, M63 - P - 1, M63 - P + 1, M63, M63 - 1}
+                lasts |= {M63 - P - hl + d for d in (-2, -1, 0, 1, 2)} | {M64 - P - hl + d for d in (-1, 0, 1)}
+                for last in sorted(v for v in lasts if 0 < v < M64):
+                    for tail in ((), ((1, 1),)):
+                        out.append((ht, ct, flags, 0, None, prefix + ((last, 1),) + tail, None, 0))
+                        out.append((ht, ct, flags, 0, None, prefix + ((1, last),) + tail, None, 0))
     # padded (non-canonical) encodings of sizes, and the re-sealed mutations, on a reduced product
     base = [(ht, ct, fl, 0, (() if fl & 2 else None), e) for (ht, ct) in digs[:4] for fl in (0, 4, 2)
             for e in [((0, 0),), ((0, 0), (5, 5)), ((3, 7), (5, 5), (1, 1))]]
